@@ -215,6 +215,18 @@ class BindContextBase:
         """Return True if is currently participating in a binding process."""
         return not isinstance(self.state, _IS_NOT_BINDING_STATES)
 
+    @staticmethod
+    def _sent_pkt(cmd: Command, pkt: Packet) -> Packet:
+        """Return the Packet of the sent Command (its echo, if that is what was rcvd).
+
+        If the echo was missed, the send may return the peer's response instead.
+        """
+        from ramses_tx import Packet as _Packet  # is otherwise only a type hint
+
+        if pkt is not None and pkt == cmd:
+            return pkt
+        return _Packet._from_cmd(cmd, dtm=pkt.dtm if pkt is not None else None)
+
     def rcvd_msg(self, msg: Message) -> None:
         """Pass relevant Messages through to the state processor."""
         if msg.code in (Code._1FC9, Code._10E0):
@@ -291,7 +303,7 @@ class BindContextRespondent(BindContextBase):
         )
 
         self.state.cast_accept_offer()
-        return pkt
+        return self._sent_pkt(cmd, pkt)
 
     async def _wait_for_confirm(
         self, accept: Packet, timeout: float = _AFFIRM_WAIT_TIME
@@ -376,7 +388,7 @@ class BindContextSupplicant(BindContextBase):
 
         # await state._fut
         self.state.cast_offer()
-        return pkt
+        return self._sent_pkt(cmd, pkt)
 
     async def _wait_for_accept(
         self, tender: Packet, timeout: float = _ACCEPT_WAIT_TIME
@@ -402,7 +414,7 @@ class BindContextSupplicant(BindContextBase):
         )
 
         await self.state.cast_confirm_accept()
-        return pkt
+        return self._sent_pkt(cmd, pkt)
 
     async def _cast_addenda(self, accept: Message, cmd: Command) -> Packet:
         """Supp casts an Addenda (the final 10E0 command)."""
@@ -412,7 +424,7 @@ class BindContextSupplicant(BindContextBase):
         )
 
         await self.state.cast_addenda()
-        return pkt
+        return self._sent_pkt(cmd, pkt)
 
 
 class BindContext(BindContextRespondent, BindContextSupplicant):
